@@ -533,6 +533,17 @@ theorem heap_py_copy_independent_with_caches (p : PyHeap) (hp : CacheInv p) (x :
   simp only [pyCopyCall_operand ox.isView tr deep p.h ox.data 0 ox.data]
   exact heap_copies_independent p.h ox.data ox.data hd hd _ (pyCopyCall_produces _ _ _) _
 
+/-- **`set_objective(object-dtype model)` end to end** (before: single-step statement only): on any well-formed CQM and any model sharing
+    no cell with it, the temporary `BinaryQuadraticModel(objective, dtype=self.dtype)` is made of new cells and is what is copied into the
+    CQM's own objective cell; the caller's model reads as before and stays separate, ANY later history of in-place edits of the caller's
+    model leaves the CQM reading the same and ANY history of in-place edits of the CQM leaves the caller's model reading the same -/
+theorem heap_set_objective_object_then_histories (h : Heap) (d m : Nat) (s : MSep h d m) (remap : List Rat → List Rat) (m' : Merge)
+    (es : List Edit) (ces : List CEdit) :
+    MSep (setObjective h d m true remap m') d m ∧ obs (setObjective h d m true remap m') m = obs h m ∧
+    cobs (es.foldl (fun acc e => e.run acc m) (setObjective h d m true remap m')) d = cobs (setObjective h d m true remap m') d ∧
+    obs (ces.foldl (fun acc e => e.run acc d) (setObjective h d m true remap m')) m = obs h m :=
+  setObjective_object_then_histories s remap m' es ces
+
 /-! ### non-vacuity, and what sharing the `__dict__` would do -/
 
 /-- Python object 0 = the BQM at cells 0–2 of `h0` -/
